@@ -100,3 +100,73 @@ Proof.
   - intros u Hu. now right.
   - unfold occurs_restriction. rewrite Nat.ltb_irrefl. destruct mx as [[|m]|]; auto. apply Nat.leb_refl.
 Qed.
+
+(* ---- a sequence of leaves restricting one element particle ---- *)
+Lemma leaf_subb_sound l l' : leaf_subb l l' = true -> forall x, leaf_match l x = true -> leaf_match l' x = true.
+Proof.
+  destruct l as [a|a], l' as [b|b]; cbn [leaf_subb leaf_match]; intros H x Hx; try discriminate.
+  - rewrite forallb_forall in H. apply H. now apply memb_In.
+  - rewrite forallb_forall in H. apply H. now apply memb_In.
+  - rewrite forallb_forall in H. apply negb_true_iff. apply negb_true_iff in Hx.
+    destruct (memb x b) eqn:Hb; [|reflexivity].
+    apply memb_In in Hb. apply H in Hb. congruence.
+Qed.
+
+Lemma repn_app (P : list N -> Prop) k u : repn P k u -> forall k' v, repn P k' v -> repn P (k + k') (u ++ v).
+Proof.
+  intros R. induction R as [|k u1 u2 Hu R IH]; intros k' v Rv; [exact Rv|].
+  rewrite <- app_assoc. cbn [Nat.add]. constructor; [exact Hu | now apply IH].
+Qed.
+
+Lemma repn_0 (P : list N -> Prop) w : repn P 0 w -> w = [].
+Proof. intros R. inversion R. reflexivity. Qed.
+
+Lemma items_count l' its : forallb (item_ok l') its = true ->
+  forall pid w, seql (items_parts pid its) w ->
+  exists k, sum_min its <= k /\ match sum_max its with Some m => k <= m | None => True end /\ repn (single l') k w.
+Proof.
+  induction its as [|i r IH]; intros Hok pid w Hw.
+  - cbn in Hw. subst w. exists 0. cbn. repeat split; [lia | lia | constructor].
+  - cbn [forallb] in Hok. apply andb_prop in Hok as [Hi Hr].
+    cbn [items_parts seql] in Hw. destruct Hw as (u & v & -> & Hu & Hv).
+    destruct (IH Hr _ _ Hv) as (k2 & Hk2a & Hk2b & R2).
+    cbn [plang] in Hu. destruct Hu as (k1 & [Hk1a Hk1b] & R1).
+    assert (R1' : repn (single l') k1 u).
+    { unfold item_ok in Hi. destruct (it_max i) as [[|m]|] eqn:Hm.
+      - assert (k1 = 0) by lia. subst k1. apply repn_0 in R1. subst u. constructor.
+      - apply (repn_mono (single (it_leaf i))); [|exact R1].
+        intros z [x [-> Hx]]. exists x. split; [reflexivity | now apply (leaf_subb_sound _ _ Hi)].
+      - apply (repn_mono (single (it_leaf i))); [|exact R1].
+        intros z [x [-> Hx]]. exists x. split; [reflexivity | now apply (leaf_subb_sound _ _ Hi)]. }
+    exists (k1 + k2). split; [cbn [sum_min fold_right]; fold (sum_min r); lia|]. split.
+    + cbn [sum_max]. destruct (it_max i) as [a|]; [|exact I]. destruct (sum_max r) as [b|]; [lia | exact I].
+    + now apply repn_app.
+Qed.
+
+Theorem elem_restriction_sound its l' mn' mx' :
+  elem_restriction its l' mn' mx' = true ->
+  forall pid pid' w, seql (items_parts pid its) w -> plang (PLeaf pid' l' mn' mx') w.
+Proof.
+  unfold elem_restriction. intros H pid pid' w Hw.
+  apply andb_prop in H as [H Hmax]. apply andb_prop in H as [Hok Hmin].
+  destruct (items_count _ _ Hok _ _ Hw) as (k & Hk1 & Hk2 & R).
+  cbn [plang]. exists k. split; [|exact R]. split.
+  - apply Nat.leb_le in Hmin. lia.
+  - unfold max_le in Hmax. destruct mx' as [n|]; [|exact I].
+    destruct (sum_max its) as [m|]; [|discriminate]. apply Nat.leb_le in Hmax. lia.
+Qed.
+
+(* the rule before the fix accepts (x?) as a restriction of (a?) *)
+Theorem elem_restriction_old_refuted :
+  exists its l' mn' mx' w,
+    elem_restriction_old its l' mn' mx' = true /\ elem_restriction its l' mn' mx' = false /\
+    seql (items_parts 1 its) w /\ ~ plang (PLeaf 0 l' mn' mx') w.
+Proof.
+  exists [(Pos [2%N], 0, Some 1)], (Pos [1%N]), 0, (Some 1), [2%N].
+  split; [reflexivity|]. split; [reflexivity|]. split.
+  - cbn [items_parts seql it_leaf it_min it_max fst snd]. exists [2%N], []. split; [reflexivity|]. split; [|reflexivity].
+    cbn [plang]. exists 1. split; [split; lia|]. rewrite <- (app_nil_r [2%N]). constructor; [|constructor].
+    exists 2%N. split; reflexivity.
+  - cbn [plang]. intros (k & _ & R). inversion R as [|k0 u v Hu Rv Hk Huv]; subst.
+    destruct Hu as [x [-> Hx]]. cbn in Huv. inversion Huv; subst x. cbn in Hx. discriminate.
+Qed.
